@@ -156,12 +156,17 @@ fn resolve<S: HasComponent<Component>>(
         token::Value::CommandRef(command_ref) => command_ref,
         _ => unreachable!(),
     };
-    let (array_index, array_len) = *input
-        .state()
-        .component()
-        .array_refs
-        .get(&command_ref)
-        .unwrap();
+    // The array is looked up by the name of the command. A command that is merely a copy of
+    // an array command (`\let\B=\A`) or the getter provider itself has no entry.
+    let (array_index, array_len) = match input.state().component().array_refs.get(&command_ref) {
+        Some(array_ref) => *array_ref,
+        None => {
+            return Err(input.fatal_error(error::SimpleTokenError::new(
+                token,
+                r"this command does not name an array allocated with \newIntArray (copies made with \let are not supported)",
+            )))
+        }
+    };
     let inner_index = parse::Uint::<{ parse::Uint::MAX }>::parse(input)?.0;
     if inner_index >= array_len {
         return Err(input.fatal_error(error::SimpleTokenError::new(
